@@ -76,6 +76,59 @@ theorem sink_ack_mono (arr : List (Nat × Nat)) (i j : Nat) (hij : i ≤ j) (hj 
 theorem prefix_unique (rs : List Range) (n m : Nat) (hn : IsPrefix rs n) (hm : IsPrefix rs m) : n = m :=
   isPrefix_unique hn hm
 
+/-- coverage of the received bytes depends only on *which* `(seq, size)` arrivals occurred, not on their order or
+multiplicity -/
+theorem covers_rangesOf_congr {a₁ a₂ : List (Nat × Nat)} (h : ∀ x, x ∈ a₁ ↔ x ∈ a₂) (b : Nat) :
+    Covers (rangesOf a₁) b ↔ Covers (rangesOf a₂) b := by
+  refine covers_of_mem_iff (fun r => ?_) b
+  unfold rangesOf
+  simp only [List.mem_map]
+  constructor <;> rintro ⟨p, hp, rfl⟩
+  · exact ⟨p, (h p).mp hp, rfl⟩
+  · exact ⟨p, (h p).mpr hp, rfl⟩
+
+/-- **The final ACK does not depend on the order of arrival or on duplicates**: two non-empty arrival sequences with
+the same set of `(seq, size)` segments (any permutation, any number of retransmitted copies of each) end with the same
+ACK.  So whatever reordering and duplication the path (or the retransmission logic) produces, the sender is told the
+same cumulative mark once the same segments are in. -/
+theorem sink_final_ack_order_independent (a₁ a₂ : List (Nat × Nat)) (h₁ : a₁ ≠ []) (h₂ : a₂ ≠ [])
+    (h : ∀ x, x ∈ a₁ ↔ x ∈ a₂) :
+    ∃ n, (acks [] a₁)[a₁.length - 1]? = some (.ok n) ∧ (acks [] a₂)[a₂.length - 1]? = some (.ok n) := by
+  have l₁ : 0 < a₁.length := List.length_pos_iff.mpr h₁
+  have l₂ : 0 < a₂.length := List.length_pos_iff.mpr h₂
+  obtain ⟨n, hn, pn⟩ := sink_ack_prefix a₁ (a₁.length - 1) (by omega)
+  obtain ⟨m, hm, pm⟩ := sink_ack_prefix a₂ (a₂.length - 1) (by omega)
+  rw [show a₁.length - 1 + 1 = a₁.length by omega, List.take_length] at pn
+  rw [show a₂.length - 1 + 1 = a₂.length by omega, List.take_length] at pm
+  have : n = m := isPrefix_unique ((isPrefix_congr (covers_rangesOf_congr h) n).mp pn) pm
+  subst this
+  exact ⟨n, hn, hm⟩
+
+/-- **A duplicate is acknowledged with the ACK already given**: if the arrival at position `k + 1` is a copy of a
+segment received earlier (a spurious retransmission), its ACK equals the ACK of arrival `k` — the mark neither moves
+back (the defect repaired in the sink, §3 C16) nor forward. -/
+theorem sink_duplicate_keeps_ack (arr : List (Nat × Nat)) (k : Nat) (hk : k + 1 < arr.length)
+    (hd : arr[k + 1] ∈ arr.take (k + 1)) :
+    ∃ n, (acks [] arr)[k]? = some (.ok n) ∧ (acks [] arr)[k + 1]? = some (.ok n) := by
+  obtain ⟨n, hn, pn⟩ := sink_ack_prefix arr k (by omega)
+  obtain ⟨m, hm, pm⟩ := sink_ack_prefix arr (k + 1) hk
+  have hmem : ∀ x, x ∈ arr.take (k + 1) ↔ x ∈ arr.take (k + 1 + 1) := by
+    intro x
+    rw [List.take_add_one (i := k + 1), List.getElem?_eq_getElem hk]
+    simp only [Option.toList_some, List.mem_append, List.mem_singleton]
+    constructor
+    · exact Or.inl
+    · rintro (hx | rfl)
+      · exact hx
+      · exact hd
+  have : n = m := isPrefix_unique ((isPrefix_congr (covers_rangesOf_congr hmem) n).mp pn) pm
+  subst this
+  exact ⟨n, hn, hm⟩
+
+/-- non-vacuity: two orders (one with a duplicate) of the same three segments, evaluated -/
+example : (acks [] [(0, 5), (10, 5), (5, 5)])[2]? = some (.ok 15) ∧
+    (acks [] [(5, 5), (10, 5), (0, 5), (0, 5)])[3]? = some (.ok 15) := by decide
+
 /-- in-order delivery: with `[0, n)` held, the segment `[n, n + size)` is acknowledged with `n + size` — the ACK of
 exactly the next segment, which is what `TimelyAct` assumes of a loss-free order-preserving path -/
 theorem sink_in_order (n size : Nat) :
